@@ -6,7 +6,7 @@ mods = []
 for d in ("Num", "Model", "Oracle", "Driver"):
     for f in sorted(glob.glob("lean/SLV/%s/*.lean" % d)):
         mods.append("SLV.%s.%s" % (d, os.path.basename(f)[:-5]))
-mods += ["SLV.Refine.Lift", "SLV.Refine.MinLemmas", "SLV.Props.Pinned", "SLV.Props.PinnedC05", "SLV.Props.Guards", "SLV.Props.FloatSpecials", "SLV.Props.OracleSpec", "SLV.Props.C05Scaled", "SLV.Gen.BiTie", "SLV.Gen.MulTie"]
+mods += ["SLV.Refine.Lift", "SLV.Refine.MinLemmas", "SLV.Props.Pinned", "SLV.Props.PinnedC05", "SLV.Props.Guards", "SLV.Props.FloatSpecials", "SLV.Props.OracleSpec", "SLV.Props.C05Scaled", "SLV.Props.C02Equal", "SLV.Gen.BiTie", "SLV.Gen.MulTie"]
 for c in claimed:
     if os.path.exists("lean/SLV/Props/%s.lean" % c):
         mods.append("SLV.Props." + c)
